@@ -18,8 +18,8 @@ Proof. vm_compute. reflexivity. Qed.
 Lemma evaluate_effects_deterministic : summaries_ok eval_effect_deterministic evaluate_summaries = true.
 Proof. vm_compute. reflexivity. Qed.
 
-Lemma batch_size_positive : 1 <= batchSize.
-Proof. apply Nat.leb_le. vm_compute. reflexivity. Qed.
+(* (the batch size and `1 <= batchSize` are now in Sys/SysProgsC09.v: harness/sysgen finds the
+   constant from its use in the batching loop of layerYZ.Evaluate) *)
 
 Lemma render_summaries_not_empty : render_summaries <> [].
 Proof. discriminate. Qed.
